@@ -103,7 +103,12 @@ const poisonByte = 0xA5
 func (d Doc) BytesSpare(spare int) []byte {
 	n := d.Len()
 	t := len(d.Tail)
-	out := make([]byte, 0, n+t+spare)
+	// the first byte sits at a varying offset (0..7) from the start of the allocation, so inputs are
+	// not always 8-byte aligned (what word-at-a-time code would have to cope with); len and cap of
+	// the slice handed out are unaffected
+	k := (n*7 + t + 3*spare) % 8
+	backing := make([]byte, k, k+n+t+spare)
+	out := backing[k:k:cap(backing)]
 	for _, s := range d.Segs {
 		for i := 0; i < s.N; i++ {
 			out = append(out, s.B...)
